@@ -115,6 +115,13 @@ class Check:
     def finish(self) -> int:
         os.makedirs(EVIDENCE_DIR, exist_ok=True)
         os.makedirs(os.path.join(EVIDENCE_DIR, "replay"), exist_ok=True)
+        rdir = os.path.join(EVIDENCE_DIR, "replay")
+        for fn in os.listdir(rdir):
+            if fn.startswith(self.pid + "-") and fn.endswith(".json"):
+                try:
+                    os.remove(os.path.join(rdir, fn))   # stale replays of earlier runs of this property
+                except OSError:
+                    pass
         wall = time.time() - self.t0
         n_ob = len(self.obligations)
         n_ok = sum(1 for o in self.obligations if o["ok"])
